@@ -58,6 +58,9 @@ def call_raw(t, kind, name, a, b):
             r = bool(r) if r is not None else None
         elif name == "update":
             r = t.update([a] if setlike else [(a, b)]); r = None
+        elif name in ("isub", "iand", "ior", "ixor"):
+            import operator
+            getattr(operator, name)(t, [a]); r = None
         elif name == "keys":
             r = list(t.keys(a))
         elif name == "minKey":
@@ -91,6 +94,50 @@ def state_repr(t):
 def canon_result(env, r):
     """map family values back to model numbers where possible (C and Py use the same maps)"""
     return repr(r)
+
+
+def stale_side_by_side(ctx, rng, n):
+    """C and Python on the SAME stored state with stale separators (installed through __setstate__, as a database load
+    would): minKey(k) / maxKey(k) / keys(lo, hi) for every probe of a small universe must agree -- range code that is
+    only right for the shapes the current code produces differs here first"""
+    import random as _r
+    from harness.props import c02
+    from harness.treelib import TreeEnv
+    nq = 0
+    for it in range(n):
+        kind = rng.choice(["BTree", "TreeSet"])
+        fn = rng.choice(ALL_FAMS)
+        ml, mi = rng.choice(c02.SIZES)
+        mode = "int" if fn[0] == "O" else None
+        envs = {impl: TreeEnv(fn, kind, impl, mode) for impl in ("C", "Py")}
+        for e in envs.values():
+            e.km.span = 80
+        seed = rng.random()
+        with envs["C"].sized(ml, mi), envs["Py"].sized(ml, mi):
+            trees = {impl: c02.build_by_history(_r.Random(seed), envs[impl], ml, mi) for impl in ("C", "Py")}
+            sh = c02.shape_with_values(envs["C"], trees["C"])
+            if c02.nleaves(sh) < 2 or c02.shape_with_values(envs["Py"], trees["Py"]) != sh:
+                continue
+            sh, _ = c02.stale(_r.Random(seed), sh)
+            trees = {impl: c02.install(envs[impl], sh) for impl in ("C", "Py")}
+            ks = [x[0] for x in c02.flat(sh)]
+            lo_, hi_ = min(ks) - 2, max(ks) + 2
+            bad = None
+            for k in range(lo_, hi_ + 1):
+                for name in ("minKey", "maxKey", "keys"):
+                    r = {impl: call_raw(trees[impl], kind, name, envs[impl].k(k), None) for impl in ("C", "Py")}
+                    nq += 1
+                    if r["C"][0] != r["Py"][0] or (r["C"][0] == "ok" and repr(r["C"][1]) != repr(r["Py"][1])):
+                        bad = (name, k, r["C"], r["Py"])
+                        break
+                if bad:
+                    break
+            if bad:
+                ctx.oracle_failure("C-vs-Py:%s:stale-separators:%s" % (kind, bad[0]),
+                                   "%s%s sizes=(%d,%d) state with stale separators %r: %s(%d): C %r, Python %r" % (fn, kind, ml, mi, sh, bad[0], bad[1], bad[2], bad[3]),
+                                   {"family": fn, "kind": kind, "sizes": [ml, mi], "shape": repr(sh), "call": bad[0], "key": bad[1]})
+            ctx.count(("stale", fn, kind, ml, mi, seed))
+    ctx.cov["side_by_side_queries_on_states_with_stale_separators"] = nq
 
 
 def run(ctx):
@@ -164,6 +211,8 @@ def run(ctx):
                     name = rng.choice(["set", "del", "get", "getd", "item", "in", "has_key", "setdefault", "pop", "popd", "insert", "update", "keys", "minKey", "maxKey"])
                     if role == "value" and name not in ("set", "setdefault", "insert", "update", "getd", "popd"):
                         name = "set"
+                    if setlike and role == "key" and rng.random() < 0.25:
+                        name = rng.choice(["isub", "iand", "ior", "ixor"])        # an out-of-domain element in the operand of an in-place operator
                     good_k = envs["C"].k(rng.randrange(u))
                     good_v = envs["C"].v(rng.randrange(4))
                     a = bad_values(rng, f, "key") if role == "key" else good_k
@@ -172,7 +221,7 @@ def run(ctx):
                         # other python values are legitimate object keys; one that cannot be ordered against the
                         # stored keys (str vs int) must fail -- or report absence -- the same way in both
                         a = Plain() if rng.random() < 0.5 else ("x" if mode == "int" else 5)
-                        if not isinstance(a, Plain) and name in ("set", "setdefault", "insert", "update"):
+                        if not isinstance(a, Plain) and name in ("set", "setdefault", "insert", "update", "ior", "ixor", "isub", "iand"):
                             name = rng.choice(["get", "getd", "item", "in", "has_key", "pop", "popd", "del", "keys", "minKey"])  # an empty container would accept the write
                     if f.vk == "O" and role == "value":
                         continue
@@ -293,6 +342,7 @@ def run(ctx):
     for i in badi[:5]:
         ctx.corr_mismatch("the shared model (TreeRun with the isC / vsame switches) vs implementation", {"case": meta[i]})
     stats["histories_compared_with_the_shared_model"] = total
+    stale_side_by_side(ctx, rng, ctx.n(60, 3000))
     ctx.cov.update(stats)
     ctx.traces = ctx.evaluations
     ctx.sample({"note": "paired execution of one history on the C and the Python class; see 'calls' counters"})
